@@ -237,3 +237,31 @@ func VerifList(exec VerifExecutor, nShards int, singleShard bool, timeout time.D
 		}
 	}
 }
+
+// VerifListCancel is VerifList over all shards with a caller that cancels its context after `after` results
+// and then drains the channel.
+func VerifListCancel(exec VerifExecutor, nShards int, after int, timeout time.Duration) (res []ListResult, closed bool) {
+	ids := make([]int64, nShards)
+	for i := range ids {
+		ids[i] = int64(i)
+	}
+	c := &clientImpl{shardManager: &verifShards{ids: ids}, executor: exec}
+	ctx, cancel := context.WithCancel(context.Background())
+	defer cancel()
+	ch := c.List(ctx, "a", "z")
+	deadline := time.After(timeout)
+	for {
+		if len(res) == after {
+			cancel()
+		}
+		select {
+		case r, ok := <-ch:
+			if !ok {
+				return res, true
+			}
+			res = append(res, r)
+		case <-deadline:
+			return res, false
+		}
+	}
+}
